@@ -75,7 +75,17 @@ def run_manifest(tid, vendor, sizes, bound, ncvrs, rng, permute):
         for cid, so in by_order:
             tab, batch, pos = cid.rsplit("-", 2)
             out_cards.append({"id": cid, "batch": rows.get((tab, batch), 0), "pos": int(pos), "order": int(so["selection_order"])})
-        rec["out"] = {"prepared_sizes": psizes, "manifest_cards": int(mcards), "phantoms": int(phantoms),
+        # the prepared manifest prepared once more (same bound, or a revised larger one): it is a manifest like any other
+        again = {"done": False, "bound": bound, "sizes": [], "manifest_cards": 0, "phantoms": 0}
+        # (Dominion only: Hart's prepared manifest holds its counts as text and is not an input of prep_manifest)
+        if vendor == "Dominion" and rng.random() < 0.4:
+            b2 = bound + rng.choice([0, 0, 3])
+            with warnings.catch_warnings():
+                warnings.simplefilter("ignore")
+                man2, mc2, ph2 = V.prep_manifest(man, b2, ncvrs)
+            again = {"done": True, "bound": b2, "sizes": [int(float(x)) for x in man2[sizecol]], "manifest_cards": int(mc2),
+                     "phantoms": int(ph2)}
+        rec["out"] = {"prepared_sizes": psizes, "manifest_cards": int(mcards), "phantoms": int(phantoms), "again": again,
                       "cum": [int(x) for x in man["cum_cards"]], "cards": out_cards,
                       "phantom_mvrs": [str(m.id) for m in mvr_ph],
                       "phantom_mvrs_ok": all(m.phantom is True and m.votes == {} for m in mvr_ph)}
@@ -106,13 +116,26 @@ def run_cvrs(tid, vendor, n, rng):
             for k, (i, ph) in enumerate(zip(ids, phantom))]
     sample = rng.sample(range(n), rng.randint(0, n))
     rec = {"kind": "cvrs", "tid": tid, "vendor": vendor, "ids": ids, "phantom": phantom, "sample": sample}
+    # where each real batch is to be found (Hart: its tabulator; Dominion: cart and tray), and each record's batch
+    rec["rows"] = [{"batch": "1", "loc": "7" if vendor == "Hart" else "c1/t1"}, {"batch": "2", "loc": "7" if vendor == "Hart" else "c2/t2"}]
+    rec["batch_of"] = ["phantom" if ph else str(1 + k % 2) for k, ph in enumerate(phantom)]
     try:
         with warnings.catch_warnings():
             warnings.simplefilter("ignore")
+            if rng.random() < 0.5:
+                # the manifest as prepared for an audit with more cards than it lists: a phantom batch has been appended
+                sizecol = "Total Ballots" if vendor == "Dominion" else "Number of Ballots"
+                man[sizecol] = [50, 50]
+                man, _, _ = V.prep_manifest(man, 100 + rng.choice([1, 7]), n)
             cards, sample_order, cvr_sample, mvr_ph = V.sample_from_cvrs(cvrs, man, np.array(sample, dtype=int))
         by_order = [cid for cid, so in sorted(sample_order.items(), key=lambda kv: kv[1]["selection_order"])]
         norm = (lambda x: x.replace("_", "-")) if vendor == "Hart" else (lambda x: x)
-        rec["out"] = {"cvr_sample_ids": [str(c.id) for c in cvr_sample], "order_ids": [str(x) for x in by_order],
+        by_id = {str(c[-1]): c for c in cards}
+        locs = []
+        for k in sample:
+            c = by_id.get(ids[k])
+            locs.append("missing" if c is None else "" if phantom[k] else (str(c[0]) if vendor == "Hart" else f"{c[0]}/{c[1]}"))
+        rec["out"] = {"cvr_sample_ids": [str(c.id) for c in cvr_sample], "order_ids": [str(x) for x in by_order], "locs": locs,
                       "phantom_mvr_ids": [str(m.id) for m in mvr_ph],
                       "phantom_mvrs_ok": all(m.phantom is True and m.votes == {} for m in mvr_ph)}
     except Exception as ex:
